@@ -29,6 +29,86 @@ fn sequences<T: Clone>(alpha: &[T], max_len: usize) -> Vec<Vec<T>> {
     out
 }
 
+/// Memory limits and calls of functions with up to 7 parameters (all properties of the engine).
+pub fn run_common(cfg: &Cfg, report: &Report, _tier: Tier) {
+    let shape = Shape { ret: Some(VT::I32), hosts: false, extra: 0 };
+    let mut st = Stats::default();
+    // ---- memory limits: growth up to the declared (or the protocol) maximum ------------------
+    let limits: Vec<(u32, Option<u32>)> = vec![(0, None), (0, Some(0)), (0, Some(1)), (1, Some(1)), (1, None), (1, Some(3)), (2, Some(2)), (2, Some(3))];
+    let bodies: Vec<Vec<Instr>> = vec![
+        vec![Instr::MemorySize],
+        vec![Instr::LocalGet(0), Instr::MemoryGrow],
+        vec![Instr::LocalGet(0), Instr::MemoryGrow, Instr::Drop, Instr::MemorySize],
+        vec![Instr::LocalGet(0), Instr::MemoryGrow, Instr::Drop, Instr::LocalGet(1), Instr::MemoryGrow, Instr::I32Const(16), Instr::Num(0x74), Instr::MemorySize, Instr::Num(0x6A)],
+        vec![Instr::LocalGet(1), Instr::MemoryGrow, Instr::Drop, Instr::LocalGet(0), Instr::I32Const(7), Instr::Store(0x36, 2, 0), Instr::LocalGet(0), Instr::Load(0x28, 2, 0)],
+    ];
+    let mut cfg_m = cfg.clone();
+    cfg_m.args_memory = vec![(0, 0), (1, 0), (1, 1), (2, 1), (3, 0), (-1, 1), (65532, 1), (65533, 0), (131068, 2), (0x10000, 0), (0, 0x10000), (33, 0)];
+    let mut n_mem = 0;
+    for (min, max) in &limits {
+        for body in &bodies {
+            let mut m = gen::template(body, shape, true);
+            m.memory = Some((*min, *max));
+            m.data = if *min > 0 { vec![(0, vec![1, 2, 3, 4, 5, 6, 7, 8])] } else { vec![] };
+            let s = json!({"memory_limits": [min, max]});
+            check_module(&cfg_m, report, &mut st, shape, body, &m, Some(&s));
+            n_mem += 1;
+        }
+    }
+    // ---- callees with 0..7 parameters: argument passing and the per-argument call charge ------
+    let mut n_call = 0;
+    for n in 0..=7usize {
+        for pattern in 0..3 {
+            let params: Vec<VT> = (0..n).map(|i| match pattern { 0 => VT::I32, 1 => VT::I64, _ => if i % 2 == 0 { VT::I32 } else { VT::I64 } }).collect();
+            for extra_locals in [0usize, 3] {
+                for via_table in [false, true] {
+                    // callee: sum of (i + 1) * p_i in 64 bits
+                    let mut kb = vec![Instr::I64Const(0)];
+                    for (i, t) in params.iter().enumerate() {
+                        kb.push(Instr::LocalGet(i as u32));
+                        if *t == VT::I32 {
+                            kb.push(Instr::Num(0xAC)); // i64.extend_i32_s
+                        }
+                        kb.extend([Instr::I64Const(i as i64 + 1), Instr::Num(0x7E), Instr::Num(0x7C)]);
+                    }
+                    // caller: arguments from its own two parameters and constants
+                    let mut body = vec![];
+                    for (i, t) in params.iter().enumerate() {
+                        match (i % 3, t) {
+                            (0, VT::I32) => body.push(Instr::LocalGet(0)),
+                            (1, VT::I32) => body.push(Instr::LocalGet(1)),
+                            (_, VT::I32) => body.push(Instr::I32Const(-(i as i32) - 1)),
+                            (0, VT::I64) => body.extend([Instr::LocalGet(1), Instr::Num(0xAD)]),
+                            (1, VT::I64) => body.extend([Instr::LocalGet(0), Instr::Num(0xAC)]),
+                            (_, VT::I64) => body.push(Instr::I64Const(i64::MIN + i as i64)),
+                        }
+                    }
+                    let mut m = gen::template(&[], shape, false);
+                    let kty = m.types.len() as u32;
+                    m.types.push(FuncType { params: params.clone(), result: Some(VT::I64) });
+                    let kidx = shape.nimports() + m.funcs.len() as u32;
+                    m.funcs.push(Func { ty: kty, locals: vec![VT::I64; extra_locals], body: kb });
+                    if via_table {
+                        m.table = Some((3, Some(3)));
+                        m.elems = vec![(0, vec![shape.g(), shape.h(), kidx])];
+                        body.extend([Instr::I32Const(2), Instr::CallIndirect(kty)]);
+                    } else {
+                        body.push(Instr::Call(kidx));
+                    }
+                    // fold the 64-bit result into 32 bits
+                    body.extend([Instr::LocalTee(3), Instr::Num(0xA7), Instr::LocalGet(3), Instr::I64Const(32), Instr::Num(0x88), Instr::Num(0xA7), Instr::Num(0x73)]);
+                    m.funcs[0].body = body.clone();
+                    let s = json!({"callee_parameters": params.iter().map(|t| t.name()).collect::<Vec<_>>(), "callee_extra_locals": extra_locals, "via_table": via_table});
+                    check_module(cfg, report, &mut st, shape, &body, &m, Some(&s));
+                    n_call += 1;
+                }
+            }
+        }
+    }
+    st.merge_into(report);
+    report.set_extra("module_structure_common_cases", json!({"memory_limit_programs": n_mem, "call_arity_programs": n_call}));
+}
+
 pub fn run(cfg: &Cfg, report: &Report, tier: Tier) {
     let quick = tier == Tier::Quick;
     let shape = Shape { ret: Some(VT::I32), hosts: false, extra: 0 };
